@@ -39,6 +39,8 @@ class SimLoop(asyncio.BaseEventLoop):
         self.exec_latency = lambda: 0.0  # tape hook
         self.exec_cancel_skips = lambda: False  # tape hook
         self.exec_jobs = 0
+        self._exec_last = 0.0
+        self.on_exec_submit = None  # hook(func): called synchronously when a job is handed to the executor
         self.connection_factory = None  # hook: async (protocol_factory, host, port) -> (transport, protocol)
         self.crashed = False
         self.unhandled: list[dict] = []
@@ -120,6 +122,8 @@ class SimLoop(asyncio.BaseEventLoop):
         latency = float(self.exec_latency())
         skip_if_cancelled = bool(self.exec_cancel_skips())
         self.exec_jobs += 1
+        if self.on_exec_submit is not None:
+            func = self.on_exec_submit(func) or func
 
         def job() -> None:
             if self.crashed:
@@ -139,7 +143,11 @@ class SimLoop(asyncio.BaseEventLoop):
                 if not fut.done():
                     fut.set_result(result)
 
-        self.call_later(latency, job)
+        # jobs complete in submission order (one worker thread): a job that was submitted earlier never
+        # lands after a later one. Reordering between pool threads is not modelled (DESIGN section 8).
+        when = max(self._exec_last, self._vt + latency)
+        self._exec_last = when
+        self.call_at(when, job)
         return fut
 
     # -- network seam ------------------------------------------------------
